@@ -13,7 +13,8 @@ MODULES = ['dassh.hotspot']
 PROPERTY = 'C19'
 FUNCTIONS = ['dassh.hotspot:analyze', 'dassh.hotspot:calculate_temps', 'dassh.hotspot:_get_peak_dt', 'dassh.hotspot:_split_clad_subfactors',
              'dassh.hotspot:_evaluate_hcf_expr']
-ASSUMPTIONS = ['precondition of calculate_temps: IN_sigma > 0 (the input template admits 0: a call-site obligation, see C18)',
+ASSUMPTIONS = ['precondition of calculate_temps: IN_sigma > 0 - established at the call site since hotspot._setup_postprocess '
+               'rejects input_sigma <= 0 (run-time contract runtime.rejected[hotspot_input_sigma_zero] of C18)',
                'sizes: 1-2 assemblies, 1-3 direct and 1-2 statistical subfactors, 1-5 temperature terms (the function is '
                'array arithmetic without size-dependent control flow)']
 NOT_DECIDED = ['user expressions in subfactor tables evaluated with eval() (arbitrary code)',
